@@ -24,6 +24,9 @@ import PyYetiVerif.Props.C13Cord
 #print axioms PyYetiVerif.C13.set_roundtrip
 #print axioms PyYetiVerif.C13.set_any_wrap
 #print axioms PyYetiVerif.C13.tabled1_roundtrip
+#print axioms PyYetiVerif.C13.spoint_lines_roundtrip
+#print axioms PyYetiVerif.C13.csuper_lines_roundtrip
+#print axioms PyYetiVerif.C13.extrn_lines_roundtrip
 #print axioms PyYetiVerif.C13.dmig_roundtrip_converse
 #print axioms PyYetiVerif.C13.dmig_assignments_iff
 #print axioms PyYetiVerif.C13.dmig_reader_on_written
